@@ -2095,3 +2095,4 @@ M("v12-quiet-or-shortcut-correct", "C01", "quiet", "src/circuit.rs",
         }
         let xor = self.push_xor(x, y);""", "behaviour-preserving: the same shortcut written correctly (y ^ (x & !y) = x | y)")
 REVERT("revert-duplicate-struct-fields", "C17", "fire T13", "bded4e0", "pre-fix tree: duplicated struct fields accepted, missing-field check behind a length comparison")
+REVERT("revert-literal-mode-nodes", "C07", "fire F12", "39a66f1", "pre-fix tree: `[1; N]` and `S {a}` given to Literal::parse reach unreachable!() in into_literal")
